@@ -57,6 +57,8 @@ def name_of(of):
     """Spec NameOf term -> the basename a command sees: <<"src", f>> or <<"out", t, kind, n>>."""
     if of[0] == "src":
         return of[1] + ".txt"
+    if of[0] == "post":
+        return "t%d.%s.gen" % (of[1], of[2])
     kind = {"file": "cat", "text": "txt", "dir": "dir", "dirc": "dir"}[of[2]]
     return out_name(of[1], dict(kind=kind, on=of[3]))
 
@@ -92,9 +94,18 @@ def render_target(t, d, logpath, extra=None):
     elif d["kind"] == "dirc":
         first = ('n=$(cat "$SRCS_F")' if d["files"] else 'n=e')
         body = 'mkdir "$OUT"; %s; printf "%s(%%s)" "$n" > "$OUT/$n"' % (first, k)
+    elif d["kind"] == "post":
+        # no declared outputs: the post-build function adds one output per line of the command's stdout
+        first = ('n=$(cat "$SRCS_F")' if d["files"] else 'n=e')
+        body = '%s; printf "%s(%%s)" "$n" > "%s.$n.gen"; echo "%s.$n.gen"' % (first, k, name, name)
     else:
         raise vlib.Infra("unknown kind %s" % d["kind"])
     cmd = pre + body + post
+    if d["kind"] == "post":
+        s = ('{"f": ["%s.txt"], "rest": [%s]}' % (d["files"][0], ", ".join(srcs[1:]))) if d["files"] else "[%s]" % ", ".join(srcs)
+        return ('def _post_%s(name, output):\n    for line in output:\n        if line:\n            add_out(name, line)\n\n'
+                'genrule(\n    name = "%s",\n    srcs = %s,\n    cmd = %s,\n    post_build = _post_%s,\n%s)\n'
+                % (name, name, s, json.dumps(cmd), name, more))
     if d["kind"] in ("dir", "dirc") and d["files"]:
         # named srcs so that the first source file is addressable whatever else is in srcs
         s = '{"f": ["%s.txt"], "rest": [%s]}' % (d["files"][0], ", ".join(srcs[1:]))
@@ -131,6 +142,9 @@ def emit_item(it):
     if it["kind"] == "dirc":
         n = it["args"][0]["c"] if it["args"] else "e"
         return "%s=%s(%s);" % (n, it["k"], n)
+    if it["kind"] == "post":
+        n = it["args"][0]["c"] if it["args"] else "e"
+        return "%s(%s)" % (it["k"], n)
     raise vlib.Infra("cannot emit %s" % it)
 
 
@@ -150,6 +164,9 @@ def expected_snapshot(t, d, tree):
     if tree["kind"] == "dirc":
         n = tree["args"][0]["c"] if tree["args"] else "e"
         return {out_name(t, d): ["dir", {n: ["file", "%s(%s)" % (tree["k"], n)]}]}
+    if tree["kind"] == "post":
+        n = tree["args"][0]["c"] if tree["args"] else "e"
+        return {"t%d.%s.gen" % (t, n): ["file", "%s(%s)" % (tree["k"], n)]}
     if tree["kind"] == "group":
         return None   # names of a filegroup's outputs are derived by the harness, contents compared via clean build
     raise vlib.Infra("bad tree %s" % tree)
@@ -238,6 +255,8 @@ class Repo:
     def outputs_of(self, t, seen=()):
         """Paths (relative to the package's gen dir) of the outputs of target t."""
         d = self.defs[t - 1]
+        if d["kind"] == "post":
+            return ["t%d.%s.gen" % (t, self.src[d["files"][0]] if d["files"] else "e")]
         if d["kind"] != "fg":
             return [out_name(t, d)]
         outs = [f + ".txt" for f in d["files"]]
